@@ -78,7 +78,8 @@ class SimPatch(Patch):
         if fault == "undef":
             sess.fired["callback-undef"] += 1
             return "jmp no_such_symbol_anywhere\n"
-        if fault == "redef":
+        if fault == "redef" and sess.world.syms:
+            # (a module without any symbol has no name to redefine)
             sess.fired["callback-redef"] += 1
             return sess.redef_text()
         mids = sess.desc.get("marker_ids")
@@ -430,12 +431,22 @@ def register_op(sess, ctx, functions, oi):
         sess.retargets.append((op["a"], op["b"]))
         if sess.armed == "C18":
             # invalid requests are refused with an error (and change nothing)
-            foreign = gtirb.Symbol("foreign_symbol")
-            probes = (
+            # (a symbol of ANOTHER module, with a referent: only the module
+            # test can refuse it)
+            fm = gtirb.Module(name="other", isa=m.isa, file_format=m.file_format)
+            fm.ir = gtirb.IR()
+            fp = gtirb.ProxyBlock()
+            fm.proxies.add(fp)
+            foreign = gtirb.Symbol("foreign_symbol", payload=fp)
+            fm.symbols.add(foreign)
+            done = {x[0] for x in sess.retargets}
+            fresh_old = next((s_ for s_ in sorted(m.symbols, key=lambda s_: s_.name) if s_.name not in done and s_.referent is not None), None)
+            probes = [
                 ("foreign-old", lambda: ctx.retarget_symbol_uses(foreign, b)),
-                ("foreign-new", lambda: ctx.retarget_symbol_uses(b if b is not a else a, foreign)),
                 ("twice", lambda: ctx.retarget_symbol_uses(a, b)),
-            )
+            ]
+            if fresh_old is not None:
+                probes.append(("foreign-new", lambda: ctx.retarget_symbol_uses(fresh_old, foreign)))
             for what, call in probes:
                 try:
                     call()
@@ -671,7 +682,7 @@ def _ordering_list(order):
     return out
 
 
-def run_session(world, model, sdesc, armed, index, logger=None, gen_cb=None, check_shape=None):
+def run_session(world, model, sdesc, armed, index, logger=None, gen_cb=None, check_shape=None, sink=None):
     """Execute one session against the real module and the model.
     Returns the Session (with .error set if apply() raised)."""
     m = world.module
@@ -682,6 +693,10 @@ def run_session(world, model, sdesc, armed, index, logger=None, gen_cb=None, che
         raise core.Desync(f"cannot map real blocks onto the listing: {e}")
     if sdesc is None:
         sdesc = gen_cb(model)
+        if sink is not None:
+            # recorded before anything runs: a violation raised from inside
+            # the session must leave a complete (replayable) scenario behind
+            sink.append(sdesc)
     elif check_shape is not None and not sdesc.get("wild") and sdesc["ops"]:
         # a replayed / shrunk scenario must still satisfy the generator's
         # preconditions
@@ -753,6 +768,9 @@ def run_session(world, model, sdesc, armed, index, logger=None, gen_cb=None, che
 
         sess.c07_expected = oracles.c07_expected(sess)
     sess.pre_blocks = {b.uuid for b in m.byte_blocks}
+    # first block of every byte interval (the one that keeps the original
+    # interval when the intervals are split per block)
+    sess.pre_first = {str(min(bi.blocks, key=lambda b: (b.offset, b.size)).uuid) for bi in m.byte_intervals if bi.blocks}
     # address order of every section before the session: what 'the next
     # block' was when a block of this section is deleted (modifications are
     # applied in address order, so everything behind it is still untouched)
